@@ -392,7 +392,8 @@ class Observer:
              upd: str = "none", upd_fn=None, scaler=None, ftarget=None, gtol=1e-5, checkpoint=None,
              fault=None, cb_mutate=False):
         """Run one call of minimize_lbfgsb; returns (result | None, exception | None)."""
-        self.fault = fault
+        # the fault carries the identity AND a snapshot of type / message / args taken at injection time
+        self.fault = None if fault is None else (fault[0], fault[1], fault[2], type(fault[2]), str(fault[2]), tuple(fault[2].args))
         self.scale = 1.0
         kw = dict(kwargs)
         lb, ub = self.lb, self.ub
@@ -513,7 +514,8 @@ class Observer:
         start["_scale_after"] = None  # filled in finalize
         if err is not None:
             f = self.fault
-            self.ev("Raised", same=bool(f is not None and err is f[2]),
+            self.ev("Raised", same=bool(f is not None and err is f[2] and type(err) is f[3] and str(err) == f[4]
+                                        and err.args == f[5]),
                     injected=bool(f is not None), _exc=repr(err), _type=type(err).__name__)
         else:
             same_ck = bool(ck is not None and res is ck)
